@@ -1010,6 +1010,7 @@ func (w *world) hammer(run int, c Case) string {
 	// machine can no longer bind a listener - a harness resource problem, not a property of C03.)
 	boom := &lab.RespScript{Status: 500, Framing: "close", Body: []byte("faulty-backend boom"), BarrierAfter: -1, Header: textPlain}
 	flaky := c.Kind == "flaky-load" && c.FlakyOneIn > 1
+	period := volleyPeriod
 	pace := 50 * time.Millisecond // free-running clients are paced: volume is not the point, being in flight at expiry instants is
 	gs := okScript("good")
 	gs.Framing = "close"
@@ -1020,10 +1021,16 @@ func (w *world) hammer(run int, c Case) string {
 		// free-running clients send back to back and every connection is kept alive: at most 24 clients over
 		// >= 2 backend entries stay within the 10 idle connections per backend that Helios pools, so no
 		// connection is opened or closed during the burst.
+		//
+		// The clients that send in synchronised volleys see a FLAPPING backend instead: FAULTY answers 5xx to
+		// every request of one volley and 200 to every request of the next (down for a moment, up again), 40
+		// volleys a second: each entry of FAULTY collects a counted failure in one volley and answers several
+		// requests successfully at the same instant in the next.
 		boom = &lab.RespScript{Status: 500, Framing: "cl", Body: []byte("faulty-backend boom"), BarrierAfter: -1, Header: textPlain}
 		w.faulty.Fallback(okScript("faulty"))
 		gs = okScript("good")
 		pace = 0
+		period = flapPeriod
 	} else {
 		w.faulty.Fallback(boom)
 	}
@@ -1066,12 +1073,12 @@ func (w *world) hammer(run int, c Case) string {
 		return true
 	}
 	// exchange sends one request on the open connection and waits for its end
-	exchange := func(cl *client) {
+	exchange := func(cl *client, down bool) {
 		start := time.Now()
 		_ = cl.conn.SetDeadline(start.Add(wedgeAfter))
 		cl.n++
 		id := fmt.Sprintf("h%d-%d-%d", run, cl.g, cl.n)
-		if flaky && (cl.g+cl.n)%c.FlakyOneIn == 0 {
+		if flaky && (down || (cl.g >= free && false) || (cl.g < free && (cl.g+cl.n)%c.FlakyOneIn == 0)) {
 			w.faulty.Expect(id, boom)
 			defer w.faulty.Forget(id) // Helios may have picked GOOD
 		}
@@ -1125,7 +1132,7 @@ func (w *world) hammer(run int, c Case) string {
 			defer finish(cl)
 			for time.Now().Before(end) && !failed() {
 				if connect(cl) {
-					exchange(cl)
+					exchange(cl, false)
 				}
 				time.Sleep(pace)
 			}
@@ -1135,6 +1142,7 @@ func (w *world) hammer(run int, c Case) string {
 		type round struct {
 			ready, done *sync.WaitGroup
 			start       chan struct{}
+			down        bool // flaky-load: FAULTY answers 5xx to every request of this volley
 		}
 		feeds := make([]chan *round, len(vol))
 		for i, cl := range vol {
@@ -1148,14 +1156,14 @@ func (w *world) hammer(run int, c Case) string {
 					r.ready.Done()
 					<-r.start
 					if ok && !failed() {
-						exchange(cl)
+						exchange(cl, r.down)
 					}
 					r.done.Done()
 				}
 			}(cl, feeds[i])
 		}
 		for time.Now().Before(end) && !failed() {
-			r := &round{ready: &sync.WaitGroup{}, done: &sync.WaitGroup{}, start: make(chan struct{})}
+			r := &round{ready: &sync.WaitGroup{}, done: &sync.WaitGroup{}, start: make(chan struct{}), down: flaky && w.volleys%2 == 0}
 			r.ready.Add(len(vol))
 			r.done.Add(len(vol))
 			for _, f := range feeds {
@@ -1166,7 +1174,7 @@ func (w *world) hammer(run int, c Case) string {
 			close(r.start)
 			r.done.Wait()
 			w.volleys++
-			time.Sleep(time.Until(began.Add(volleyPeriod))) // at most 10 volleys a second
+			time.Sleep(time.Until(began.Add(period))) // at most 10 volleys a second (flaky-load: 40)
 		}
 		for _, f := range feeds {
 			close(f)
@@ -1463,6 +1471,9 @@ const stallLimit = time.Second
 
 // volleyPeriod paces the synchronised volleys of a concurrent burst.
 const volleyPeriod = 100 * time.Millisecond
+
+// flapPeriod paces the volleys of a flaky-load case (alternately answered 5xx and 200 by FAULTY).
+const flapPeriod = 25 * time.Millisecond
 
 type canary struct {
 	mu     sync.Mutex
